@@ -11,6 +11,13 @@
 (* evaluator covers struct literals and field access (slit, dot), tuple     *)
 (* destructuring in let and for (letd, ford) and try blocks (try); they are *)
 (* not (yet) in Machine.tla, so only the Ref-based checks generate them.    *)
+(* A second extension adds user-defined methods (prog.meths, dispatched on  *)
+(* the receiver's runtime type name), dictionaries (dlit, get / set /       *)
+(* remove / items) and the total part of the prelude: list methods first,   *)
+(* last, is_empty, is_non_empty, contains, concat, index_of, enumerate,     *)
+(* map, filter; option methods is_some, is_none, or_value; the functions    *)
+(* range, max, min, not, sort_nums.  The prelude implements most of these   *)
+(* in Garden itself; here they are stated by their meaning.                 *)
 (*                                                                          *)
 (* Clauses tagged PINNED encode observable choices of the implementation    *)
 (* that the language documentation does not spell out (DESIGN.md §5.7).     *)
@@ -70,6 +77,8 @@ RECURSIVE ForLoop(_, _, _, _, _)
 RECURSIVE BindParams(_, _, _, _)
 RECURSIVE MatchArms(_, _, _, _, _)
 RECURSIVE CallValue(_, _, _, _, _)
+RECURSIVE MapLoop(_, _, _, _, _, _)
+RECURSIVE FilterLoop(_, _, _, _, _, _)
 
 \* Evaluate statements i..Len(stmts) in the current scope; `last` is the
 \* value of the previous statement (Unit for an empty sequence).
@@ -131,10 +140,33 @@ HasType(v, t) ==
     [] t = "Bool" -> IsBool(v)
     [] t = "List<Int>" -> IsList(v) /\ \A i \in 1..Len(v.v) : IsInt(v.v[i])
     [] t = "List<String>" -> IsList(v) /\ \A i \in 1..Len(v.v) : IsStr(v.v[i])
+    [] t = "List" -> IsList(v)
     [] OTHER -> TRUE
 
 BindParams(ps, args, i, blk) ==
   IF i > Len(ps) THEN blk ELSE BindParams(ps, args, i + 1, Bind(blk, ps[i], args[i]))
+
+\* The prelude functions the reference knows (a program's own definition of the same name wins).
+BuiltinFuns == {"range", "max", "min", "not", "sort_nums"}
+BuiltinSig(n) == CASE n = "range" -> <<"Int", "Int">> [] n = "max" -> <<"Int", "Int">> [] n = "min" -> <<"Int", "Int">>
+                   [] n = "not" -> <<"Bool">> [] n = "sort_nums" -> <<"List<Int>">>
+RECURSIVE RangeSeq(_, _)
+RangeSeq(i, j) == IF i >= j THEN <<>> ELSE <<IntV(i)>> \o RangeSeq(i + 1, j)
+CallBuiltin(n, args, line, s) ==
+  LET sig == BuiltinSig(n) IN
+  IF Len(sig) # Len(args) THEN Err("Arity", line, s)
+  ELSE IF \E i \in 1..Len(args) : ~HasType(args[i], sig[i]) THEN Err("TypeError", line, s)
+  ELSE CASE n = "range" -> IF args[2].v - args[1].v > 40 THEN BigR(s) ELSE Ok(ListV(RangeSeq(args[1].v, args[2].v)), s)
+         [] n = "max" -> Ok(IF args[1].v >= args[2].v THEN args[1] ELSE args[2], s)
+         [] n = "min" -> Ok(IF args[1].v <= args[2].v THEN args[1] ELSE args[2], s)
+         [] n = "not" -> Ok(BoolV(~IsTrue(args[1])), s)
+         [] n = "sort_nums" -> Ok(ListV(SortSeq(args[1].v, LAMBDA a, b : a.v < b.v)), s)
+
+\* User-defined methods: the latest definition for (receiver type name, method name), or 0.
+MethIdx(prog, ty, m) ==
+  IF "meths" \notin DOMAIN prog THEN 0
+  ELSE LET S == {i \in 1..Len(prog.meths) : prog.meths[i].recv = ty /\ prog.meths[i].n = m} IN
+       IF S = {} THEN 0 ELSE CHOOSE i \in S : \A j \in S : i >= j
 
 \* Apply a function value to evaluated arguments.  The callee runs in its
 \* own frame: named functions see only their parameters (PINNED: not the
@@ -153,6 +185,7 @@ CallValue(prog, f, args, line, s) ==
               (CASE r.c \in {"ok", "return"} ->
                       IF HasType(r.v, f.rt) THEN Ok(r.v, back) ELSE Err("TypeError", f.line, back)
                  [] OTHER -> [r EXCEPT !.s = back])
+    [] f.k = "Fun" /\ FunIdx(prog, f.n) = 0 -> CallBuiltin(f.n, args, line, s)
     [] f.k = "Fun" ->
          LET d == prog.funs[FunIdx(prog, f.n)] IN
          IF Len(d.ps) # Len(args) THEN Err("Arity", line, s)
@@ -166,14 +199,101 @@ CallValue(prog, f, args, line, s) ==
                  [] OTHER -> [r EXCEPT !.s = back])
     [] OTHER -> Err("ExpectedFunction", line, s)
 
-MethodCall(e, recv, args, s) ==
-  CASE e.m = "len" /\ Len(args) = 0 /\ IsList(recv) -> Ok(IntV(Len(recv.v)), s)
-    [] e.m = "len" /\ Len(args) = 0 /\ IsStr(recv) -> Ok(IntV(Len(recv.v)), s)   \* ASCII strings only
-    [] e.m = "append" /\ Len(args) = 1 /\ IsList(recv) -> Ok(ListV(Append(recv.v, args[1])), s)
-    [] e.m = "get" /\ Len(args) = 1 /\ IsList(recv) /\ IsInt(args[1]) ->
+\* A user-defined method: arity is checked, declared parameter types are NOT (PINNED: eval_method_call binds
+\* without check_param_types), the declared return type is; the body sees the parameters and the receiver.
+CallMethod(prog, d, recv, args, line, s) ==
+  IF s.fuel = 0 \/ s.depth >= MaxDepth THEN R("fuel", UnitV, s, "", 0)
+  ELSE IF Len(d.ps) # Len(args) THEN Err("Arity", line, s)
+  ELSE LET s1 == [s EXCEPT !.fuel = @ - 1, !.depth = @ + 1]
+           r == EvalSeq(prog, d.b, 1, [s1 EXCEPT !.bl = <<Bind(BindParams(d.ps, args, 1, EmptyBlk), d.this, recv)>>], UnitV)
+           back == [r.s EXCEPT !.bl = s.bl, !.depth = s.depth] IN
+       CASE r.c \in {"ok", "return"} -> IF HasType(r.v, d.rt) THEN Ok(r.v, back) ELSE Err("TypeError", d.line, back)
+         [] OTHER -> [r EXCEPT !.s = back]
+
+\* xs.map(f) / xs.filter(f): f is applied to the items first to last
+MapLoop(prog, f, xs, i, line, sacc) ==
+  IF i > Len(xs) THEN Ok(ListV(sacc[2]), sacc[1])
+  ELSE LET r == CallValue(prog, f, <<xs[i]>>, line, sacc[1]) IN
+       IF r.c # "ok" THEN r ELSE MapLoop(prog, f, xs, i + 1, line, <<r.s, Append(sacc[2], r.v)>>)
+FilterLoop(prog, f, xs, i, line, sacc) ==
+  IF i > Len(xs) THEN Ok(ListV(sacc[2]), sacc[1])
+  ELSE LET r == CallValue(prog, f, <<xs[i]>>, line, sacc[1]) IN
+       IF r.c # "ok" THEN r
+       ELSE IF ~IsBool(r.v) THEN Err("TypeError", line, r.s)
+       ELSE FilterLoop(prog, f, xs, i + 1, line, <<r.s, IF IsTrue(r.v) THEN Append(sacc[2], xs[i]) ELSE sacc[2]>>)
+
+IsOpt(v) == v.k = "Enum" /\ v.n \in {"Some", "None"}
+IsFun(v) == v.k \in {"Clo", "Fun"}
+FirstIdx(xs, x) == LET S == {i \in 1..Len(xs) : ValEq(xs[i], x)} IN
+                   IF S = {} THEN 0 ELSE CHOOSE i \in S : \A j \in S : i <= j
+
+\* Built-in and prelude methods, by receiver kind, name and number of arguments.
+MethodCall(prog, e, recv, args, s) ==
+  LET n == Len(args)  m == e.m IN
+  CASE m = "len" /\ n = 0 /\ IsList(recv) -> Ok(IntV(Len(recv.v)), s)
+    [] m = "len" /\ n = 0 /\ IsStr(recv) -> Ok(IntV(Len(recv.v)), s)   \* ASCII strings only
+    [] m = "append" /\ n = 1 /\ IsList(recv) -> Ok(ListV(Append(recv.v, args[1])), s)
+    [] m = "get" /\ n = 1 /\ IsList(recv) /\ IsInt(args[1]) ->
          IF args[1].v >= 0 /\ args[1].v < Len(recv.v) THEN Ok(SomeV(recv.v[args[1].v + 1]), s)
          ELSE Ok(NoneV, s)
+    \* the total part of the prelude's list methods
+    [] m = "first" /\ n = 0 /\ IsList(recv) -> Ok(IF recv.v = <<>> THEN NoneV ELSE SomeV(recv.v[1]), s)
+    [] m = "last" /\ n = 0 /\ IsList(recv) -> Ok(IF recv.v = <<>> THEN NoneV ELSE SomeV(recv.v[Len(recv.v)]), s)
+    [] m = "is_empty" /\ n = 0 /\ IsList(recv) -> Ok(BoolV(recv.v = <<>>), s)
+    [] m = "is_non_empty" /\ n = 0 /\ IsList(recv) -> Ok(BoolV(recv.v # <<>>), s)
+    [] m = "contains" /\ n = 1 /\ IsList(recv) -> Ok(BoolV(FirstIdx(recv.v, args[1]) # 0), s)
+    [] m = "index_of" /\ n = 1 /\ IsList(recv) ->
+         Ok(IF FirstIdx(recv.v, args[1]) = 0 THEN NoneV ELSE SomeV(IntV(FirstIdx(recv.v, args[1]) - 1)), s)
+    [] m = "concat" /\ n = 1 /\ IsList(recv) /\ IsList(args[1]) -> Ok(ListV(recv.v \o args[1].v), s)
+    [] m = "enumerate" /\ n = 0 /\ IsList(recv) ->
+         Ok(ListV([i \in 1..Len(recv.v) |-> TupV(<<IntV(i - 1), recv.v[i]>>)]), s)
+    [] m = "map" /\ n = 1 /\ IsList(recv) /\ IsFun(args[1]) -> MapLoop(prog, args[1], recv.v, 1, e.line, <<s, <<>> >>)
+    [] m = "filter" /\ n = 1 /\ IsList(recv) /\ IsFun(args[1]) -> FilterLoop(prog, args[1], recv.v, 1, e.line, <<s, <<>> >>)
+    \* options
+    [] m = "is_some" /\ n = 0 /\ IsOpt(recv) -> Ok(BoolV(recv.has), s)
+    [] m = "is_none" /\ n = 0 /\ IsOpt(recv) -> Ok(BoolV(~recv.has), s)
+    [] m = "or_value" /\ n = 1 /\ IsOpt(recv) -> Ok(IF recv.has THEN recv.p ELSE args[1], s)
+    \* dictionaries
+    [] m = "get" /\ n = 1 /\ IsDict(recv) /\ IsStr(args[1]) ->
+         LET S == {i \in 1..Len(recv.kv) : recv.kv[i].k = args[1].v} IN
+         Ok(IF S = {} THEN NoneV ELSE SomeV(recv.kv[CHOOSE i \in S : TRUE].v), s)
+    [] m = "set" /\ n = 2 /\ IsDict(recv) /\ IsStr(args[1]) -> Ok(DictV(DictSetKey(recv.kv, args[1].v, args[2])), s)
+    [] m = "remove" /\ n = 1 /\ IsDict(recv) /\ IsStr(args[1]) -> Ok(DictV(DictRemoveKey(recv.kv, args[1].v)), s)
+    [] m = "items" /\ n = 0 /\ IsDict(recv) ->
+         Ok(ListV([i \in 1..Len(recv.kv) |-> TupV(<<StrV(recv.kv[i].k), recv.kv[i].v>>)]), s)
     [] OTHER -> Err("MethodError", e.line, s)
+
+\* The declared fields of struct n (prog.structs, when the program carries its declarations), or <<>>.
+StructFields(prog, n) ==
+  IF "structs" \notin DOMAIN prog THEN <<>>
+  ELSE LET S == {i \in 1..Len(prog.structs) : prog.structs[i].n = n} IN
+       IF S = {} THEN <<>> ELSE prog.structs[CHOOSE i \in S : TRUE].fs
+\* What is wrong with a struct literal whose field values are vals (src/eval.rs eval_struct_value): fields are
+\* taken in the literal's order; a name the struct does not declare (or gives twice) and a value of the wrong
+\* type are reported at that field, a missing field at the literal.  ek = "" if nothing is wrong.
+SlitProblem(prog, e, vals) ==
+  LET decl == StructFields(prog, e.n)
+      Declared(nm) == {j \in 1..Len(decl) : decl[j].n = nm}
+      BadAt(i) == \/ Declared(e.fs[i].n) = {}
+                  \/ \E j \in 1..(i - 1) : e.fs[j].n = e.fs[i].n
+                  \/ ~HasType(vals[i], decl[CHOOSE j \in Declared(e.fs[i].n) : TRUE].t)
+      B == {i \in 1..Len(e.fs) : BadAt(i)} IN
+  IF decl = <<>> THEN [ek |-> "", line |-> 0]
+  ELSE IF B # {} THEN
+       LET i == CHOOSE i \in B : \A j \in B : i <= j IN
+       [ek |-> IF Declared(e.fs[i].n) = {} \/ \E j \in 1..(i - 1) : e.fs[j].n = e.fs[i].n THEN "NoField" ELSE "TypeError",
+        line |-> e.fs[i].e.line]
+  ELSE IF \E j \in 1..Len(decl) : \A i \in 1..Len(e.fs) : e.fs[i].n # decl[j].n THEN [ek |-> "NoField", line |-> e.line]
+  ELSE [ek |-> "", line |-> 0]
+
+\* Fold the evaluated key / value pairs of a dictionary literal, first pair to last (a later duplicate wins);
+\* vals alternates value, key (see dlit below).  A key that is not a string is a type error at that key.
+RECURSIVE DictFold(_, _, _, _, _)
+DictFold(e, vals, i, acc, s) ==
+  IF i > Len(e.kvs) THEN Ok(DictV(acc), s)
+  ELSE LET key == vals[2 * i]  val == vals[2 * i - 1] IN
+       IF ~IsStr(key) THEN Err("TypeError", e.kvs[i].k.line, s)
+       ELSE DictFold(e, vals, i + 1, DictSetKey(acc, key.v, val), s)
 
 Eval(prog, e, s) ==
   CASE e.k = "int"  -> Ok(IntV(e.v), s)
@@ -188,7 +308,7 @@ Eval(prog, e, s) ==
     [] e.k = "var"  ->
          LET i == FindBlk(s.bl, e.n, Len(s.bl)) IN
          IF i # 0 THEN Ok(s.bl[i][e.n], s)
-         ELSE IF FunIdx(prog, e.n) # 0 THEN Ok(FunV(e.n), s)
+         ELSE IF FunIdx(prog, e.n) # 0 \/ e.n \in BuiltinFuns THEN Ok(FunV(e.n), s)
          ELSE Err("NoSuchVariable", e.line, s)
     [] e.k = "let"  ->
          LET r == Eval(prog, e.e, s) IN
@@ -240,7 +360,15 @@ Eval(prog, e, s) ==
          \* the value keeps the literal's field order
          LET r == EvalItemsRev(prog, [i \in 1..Len(e.fs) |-> e.fs[i].e], Len(e.fs), s, <<>>) IN
          IF r.c # "ok" THEN r
-         ELSE Ok(StructV(e.n, [i \in 1..Len(e.fs) |-> [n |-> e.fs[i].n, v |-> r.v.v[i]]]), r.s)
+         ELSE LET bad == SlitProblem(prog, e, r.v.v) IN
+              IF bad.ek # "" THEN Err(bad.ek, bad.line, r.s)
+              ELSE Ok(StructV(e.n, [i \in 1..Len(e.fs) |-> [n |-> e.fs[i].n, v |-> r.v.v[i]]]), r.s)
+    [] e.k = "dlit" ->
+         \* Dict[k1 => v1, ...]: PINNED evaluation order: last pair first, and within a pair the key before
+         \* the value (src/eval.rs DictLiteral pushes value then key for each pair onto the LIFO work list)
+         LET flat == [i \in 1..(2 * Len(e.kvs)) |-> IF i % 2 = 1 THEN e.kvs[(i + 1) \div 2].v ELSE e.kvs[i \div 2].k]
+             r == EvalItemsRev(prog, flat, Len(flat), s, <<>>) IN
+         IF r.c # "ok" THEN r ELSE DictFold(e, r.v.v, 1, <<>>, r.s)
     [] e.k = "dot" ->
          LET r == Eval(prog, e.e, s) IN
          IF r.c # "ok" THEN r
@@ -296,7 +424,9 @@ Eval(prog, e, s) ==
          IF rr.c # "ok" THEN rr
          ELSE LET ra == EvalItemsRev(prog, e.args, Len(e.args), rr.s, <<>>) IN
               IF ra.c # "ok" THEN ra
-              ELSE MethodCall(e, rr.v, ra.v.v, ra.s)
+              ELSE LET mi == MethIdx(prog, TypeName(rr.v), e.m) IN
+                   IF mi # 0 THEN CallMethod(prog, prog.meths[mi], rr.v, ra.v.v, e.line, ra.s)
+                   ELSE MethodCall(prog, e, rr.v, ra.v.v, ra.s)
     [] e.k = "match" ->
          LET r == Eval(prog, e.s, s) IN
          IF r.c # "ok" THEN r
